@@ -34,6 +34,7 @@ CONSTANTS
     OnchainCNs,             \* subset of {"X","Y"}: whose published certificate may be replayed (Y = the other tenant, genuinely)
     \* on-chain certificate classes of (X, s1)
     RegStates, RegKeys, RegWindows, RegUsages,
+    RegUsagesOk,            \* further usage classes of (X, s1), crossed only with state valid, key k1, window ok
     RegOthers,              \* subset of BOOLEAN: may (X,s2) and (Y,s1) hold a valid certificate with key k2
     TwoCNs,                 \* subset of BOOLEAN: TRUE = certificates with two CN attributes in the subject are in the universe
     \* request classes
@@ -61,7 +62,13 @@ SecondTwo == [Second EXCEPT !.first = "X"]      \* Y's genuine, published certif
 RegId(o, s)        == o \o "/" \o s
 Lookup(reg, o, s)  == IF RegId(o, s) \in DOMAIN reg THEN reg[RegId(o, s)] ELSE None
 
-PermitsClient(u)   == u \in {"client", "both", "none"}      \* RFC 5280: no EKU extension = unrestricted
+\* extended key usage classes: client = {ClientAuth}, server = {ServerAuth}, both = {ClientAuth, ServerAuth}, any = {Any},
+\* code = {CodeSigning}, none = no EKU at all, unknown = only a purpose crypto/x509 does not know (a private OID),
+\* clientUnk = {ClientAuth} + unknown OID, serverUnk = {ServerAuth} + unknown OID.
+\* Usable for TLS client authentication per x509 semantics: ClientAuth or Any listed, or no EKU restriction at all
+\* (a certificate listing only unknown purposes IS restricted).  Key usage (as opposed to extended key usage) of a leaf
+\* is not enforced by the code as built and the statement is silent about it: not modelled.
+PermitsClient(u)   == u \in {"client", "both", "none", "any", "clientUnk"}
 
 (***************************************************************************************************************)
 (* (1) ORACLE -- the statement.                                                                                *)
@@ -171,6 +178,7 @@ Served(c, reg, p) ==
 (* TLC evaluates UNION / \cup on large sets quadratically, so the universe is written as filters over products     *)
 (* of small sets and the two halves are never united: Init of MC_GatewayAuth is their disjunction.              *)
 EntriesXs1   == {None} \cup [state : RegStates, key : RegKeys, window : RegWindows, usage : RegUsages, first : {"same"}]
+                       \cup [state : {"valid"}, key : {"k1"}, window : {"ok"}, usage : RegUsagesOk, first : {"same"}]
                        \* X's own certificate whose subject reads CN=Y, CN=X
                        \cup [state : RegStates, key : {"k1"}, window : {"ok"}, usage : {"client"}, first : {"Y" : b \in TwoCNs \ {FALSE}}]
 EntriesOther == {None} \cup {Second : b \in RegOthers \ {FALSE}}
@@ -193,7 +201,7 @@ FreshCerts == { c \in [cn : CNs, first : {"same"} \cup {"Y" : b \in TwoCNs \ {FA
 \* the client replays the very bytes X published (with or without owning the private key): the attributes are
 \* those of the registry entry
 OnchainUniverse == [cn : OnchainCNs, first : {"same", "X", "Y"}, issuer : {"self"}, serial : SerialUniverse, key : RegKeys \cup {"k2"},
-                    window : RegWindows \cup {"ok"}, usage : RegUsages \cup {"client"},
+                    window : RegWindows \cup {"ok"}, usage : RegUsages \cup RegUsagesOk \cup {"client"},
                     chainLen : ChainLens \ {0}, der : {"onchain"}, holds : Holds]
 IsOnchainOf(c, reg) == LET e == Lookup(reg, c.cn, c.serial) IN
                        e.state # "none" /\ c.key = e.key /\ c.window = e.window /\ c.usage = e.usage /\ c.first = e.first
